@@ -24,6 +24,8 @@ import re
 
 import z3
 
+from pyvc.engine import exc_class as EXC_CLASS
+
 from pyvc import ops
 from pyvc.engine import EXC, exc_class, make_exc
 from pyvc.values import Ext, NoOp, PyRaise, Unsupported, VClass, VDict, VFunc, VList, VObj, VSet, stub
@@ -64,6 +66,8 @@ class World:
         # the database file as this call finds it
         self.file = Lazy(eng, "database_file", ["absent", "garbage", "database"])
         self.integrity = Lazy(eng, "integrity_check", ["ok", "reports-damage"])
+        self.spelling = Lazy(eng, "cache_folder_spelling", ["canonical", "not canonical (relative / through a link)"])
+        eng.c01_world = self
         # tables: missing | ok | wrong layout that still has the columns used (extra column / other key) | wrong layout lacking them
         self.models = Lazy(eng, "models_table", ["missing", "ok", "wrong-layout-compatible", "wrong-layout-incompatible"])
         self.metadata = Lazy(eng, "metadata_table", ["missing", "ok", "wrong-layout-compatible", "wrong-layout-incompatible"])
@@ -270,6 +274,23 @@ class DbPath(Ext):
             return stub(lambda eng, *a, **k: None)
         if name == "expanduser":
             return stub(lambda eng: self)
+        if name in ("resolve", "absolute"):
+            # the folder may be given in a spelling that is not its canonical location (relative, through a link, with ..): then the
+            # resolved path is ANOTHER path object value than the one the caller passed
+            def resolve(eng, *a, **k):
+                w_ = getattr(eng, "c01_world", None)
+                if self.label.startswith("<canonical>") or w_ is None:
+                    return self
+                if w_.spelling.get() == "canonical":
+                    return self
+                return DbPath("<canonical>" + self.label)
+            return stub(resolve)
+        if name in ("name", "stem"):
+            return self.label.split("/")[-1]
+        if name == "parent":
+            return DbPath("/".join(self.label.split("/")[:-1]))
+        if name in ("exists", "is_file"):
+            return stub(lambda eng: True)
         raise Unsupported("Path.%s" % name)
 
 
@@ -384,6 +405,15 @@ def h_parse(eng):
     eng.input("always_update_last_hit", always)
     # the default-folder branch is exercised together with the fresh-module case (it does not interact with the rest)
     default_folder = init.startswith("attribute absent")
+    depth = {"n": 0}
+
+    def reenter(eng, args, kwargs):
+        depth["n"] += 1
+        if depth["n"] > 4:
+            # the same call with the same arguments in the same state: it repeats until the interpreter gives up
+            raise PyRaise(VObj(eng.builtins["RecursionError"] if "RecursionError" in eng.builtins else EXC_CLASS("RecursionError"), {"args": ("parse() retries itself without end",)}))
+        return eng.call_function(f, list(args), kwargs, bypass_contract=True)
+    eng.call_contracts["parse"] = reenter
     try:
         r = eng.call(f, [w.txt], {"model_cache_folder": None if default_folder else folder, "cache_db": "cache.db",
                                  "cache_expiration_days": eng.fresh_int("expiration_days"), "always_update_last_hit": always})
@@ -419,6 +449,58 @@ def h_parse(eng):
     if out == "tree" and w.parse_calls:
         eng.prove("parse.fresh_tree_is_stored_for_the_next_call", z3.BoolVal(len(w.written) == 1))
     eng.prove("parse.every_connection_is_closed", z3.BoolVal(w.open_connections == 0), open=w.open_connections)
+
+
+def h_parse_after_an_earlier_call(eng):
+    """a two-call history in one process, with whatever the FIRST real call left in parse's own memo (not a memo state written by hand):
+    call 1 on a sound database; then the file is damaged in any way (garbage, removed, a wrong layout, a damaged row); call 2 -- under
+    any spelling of the cache folder -- still returns the fresh parse (or the valid row) and raises nothing because of the cache."""
+    eng.max_paths = 6000
+    w = World(eng)
+    install(eng, w, "1.2.3+4.gabcdef")
+    f = eng.find_function(PARSER, "parse")
+    eng.find_function(PARSER, "_check_database_structure")
+    folder = DbPath("<folder>")
+    depth = {"n": 0}
+
+    def reenter(eng, args, kwargs):
+        depth["n"] += 1
+        if depth["n"] > 4:
+            raise PyRaise(VObj(EXC_CLASS("RecursionError"), {"args": ("parse() retries itself without end",)}))
+        return eng.call_function(f, list(args), kwargs, bypass_contract=True)
+    eng.call_contracts["parse"] = reenter
+    # ---- call 1: a sound database without a row for this text
+    for lz, val in ((w.file, "database"), (w.integrity, "ok"), (w.models, "ok"), (w.metadata, "ok"), (w.row, "none"), (w.parse_outcome, "tree")):
+        lz.set(val)
+    kw = {"model_cache_folder": folder, "cache_db": "cache.db", "cache_expiration_days": 30, "always_update_last_hit": False}
+    try:
+        eng.call(f, [w.txt], dict(kw))
+    except PyRaise as e:
+        eng.prove("history2.first_call_on_a_sound_database_succeeds", False, raised=exc_name(e))
+        return
+    # ---- late damage: the second call finds an arbitrary file again
+    w.file = Lazy(eng, "database_file_at_second_call", ["absent", "garbage", "database"])
+    w.integrity = Lazy(eng, "integrity_check_at_second_call", ["ok", "reports-damage"])
+    w.models = Lazy(eng, "models_table_at_second_call", ["missing", "ok", "wrong-layout-compatible", "wrong-layout-incompatible"])
+    w.metadata = Lazy(eng, "metadata_table_at_second_call", ["missing", "ok", "wrong-layout-incompatible"])
+    w.row = Lazy(eng, "row_at_second_call", ["none", "valid", "damaged:EOFError"])
+    w.parse_outcome = Lazy(eng, "uncached_parse_at_second_call", ["tree", "None (syntax error)"])
+    w.written, w.parse_calls, w.statements = [], 0, []
+    depth["n"] = 0
+    try:
+        r = eng.call(f, [w.txt], dict(kw))
+    except PyRaise as e:
+        eng.cover("history2.raises")
+        eng.prove("history2.second_call_raises_nothing_because_of_the_cache", False, raised=exc_name(e), statements=w.statements[-3:])
+        return
+    eng.cover("history2.returns")
+    eng.prove("history2.second_call_raises_nothing_because_of_the_cache", True)
+    out = w.parse_outcome.value
+    if w.parse_calls == 0:
+        eng.prove("history2.cached_tree_only_from_a_valid_row", z3.BoolVal(r is w.cached_tree))
+    else:
+        eng.prove("history2.result_is_the_fresh_parse", z3.BoolVal((r is w.fresh_tree) if out == "tree" else (r is None)))
+    eng.prove("history2.every_connection_is_closed", z3.BoolVal(w.open_connections == 0))
 
 
 def h_bypass(eng):
@@ -518,9 +600,9 @@ def h_key(eng):
     eng.prove("key.is_the_sha256_of_exactly_the_texts_utf8_bytes", z3.BoolVal(r == ("hexdigest", "sha256", (("bytes of the text", "utf-8", "strict"),))), got=str(r))
 
 
-HARNESSES = [("cache key", h_key), ("parse over every cache state", h_parse), ("bypass and dirty version", h_bypass), ("_check_database_structure", h_structure)]
+HARNESSES = [("cache key", h_key), ("parse over every cache state", h_parse), ("parse after an earlier call of the same process, then late damage", h_parse_after_an_earlier_call), ("bypass and dirty version", h_bypass), ("_check_database_structure", h_structure)]
 EXPECTED_COVER = {"key", "parse.returns", "parse.hit", "parse.miss", "parse.syntax_error", "parse.file.database", "parse.row.valid", "parse.row.damaged", "parse.row.none",
-                  "bypass.case0", "bypass.case1", "structure.kept", "structure.recreated"}
+                  "bypass.case0", "bypass.case1", "structure.kept", "structure.recreated", "history2.returns"}
 BOUNDED = True
 LEVEL = "proof"
 TRUSTED = ["SQLite and the sqlite3 module, by a table of contracts keyed by the SQL text read from the source (BEGIN, PRAGMA integrity_check, SELECT .. sqlite_master, PRAGMA table_info, DROP/CREATE TABLE, INSERT OR IGNORE, "
